@@ -447,6 +447,48 @@ impl Check for PositionLedger {
         ensure!(rep, state.assets == pristine.assets, "engine-state:assets-changed", "fills changed asset states");
         ensure!(rep, n_exits == exits_direct.len(), "engine-state:exit-count", "engine layer produced {n_exits} exits, position manager {}", exits_direct.len());
 
+        // layer 3: Engine::process with trading enabled and a strategy that places an order on
+        // every tick: the closed-position records must still appear in the audit of the fills
+        {
+            use crate::props::enginekit::{Link, Rig, STRATEGY};
+            use barter::{
+                EngineEvent,
+                engine::{EngineOutput, Processor, audit::EngineAudit},
+                execution::AccountStreamEvent,
+            };
+            use barter_execution::order::{
+                OrderKey, OrderKind, TimeInForce,
+                id::{ClientOrderId, StrategyId},
+                request::{OrderRequestOpen, RequestOpen},
+            };
+            let mut rig = Rig::new(&defs, &[Link::Healthy; 4], TradingState::Enabled);
+            let mut audited: Vec<PositionExited<QuoteAsset, InstrumentIndex>> = Vec::new();
+            for (n, f) in fills.iter().enumerate() {
+                // the strategy reacts to this tick with one order (alternating instruments)
+                let target = InstrumentIndex(n % 3);
+                let request = OrderRequestOpen {
+                    key: OrderKey { exchange: indexed.instruments()[target.index()].value.exchange.key, instrument: target, strategy: StrategyId::new(STRATEGY), cid: ClientOrderId::new(format!("tick-{n}")) },
+                    state: RequestOpen { side: Side::Buy, price: Decimal::ONE, quantity: Decimal::ONE, kind: OrderKind::Limit, time_in_force: TimeInForce::GoodUntilCancelled { post_only: false } },
+                };
+                rig.engine.strategy.push_script(vec![], vec![request]);
+                let ev = EngineEvent::Account(AccountStreamEvent::Item(AccountEvent { exchange, kind: AccountEventKind::Trade(trade_of(inst, f)) }));
+                match rig.engine.process(ev) {
+                    EngineAudit::Process(p) => {
+                        for o in p.outputs.iter() {
+                            if let EngineOutput::PositionExit(e) = o {
+                                audited.push(e.clone());
+                            }
+                        }
+                    }
+                    EngineAudit::FeedEnded => {}
+                }
+            }
+            let as_tuple = |instrument_ok: bool, e_pnl: Decimal, trades: Vec<String>| (instrument_ok, e_pnl, trades);
+            let got: Vec<_> = audited.iter().map(|e| as_tuple(e.instrument == inst, e.pnl_realised, e.trades.iter().map(|t| t.0.to_string()).collect())).collect();
+            let want: Vec<_> = exits_direct.iter().map(|e| as_tuple(true, e.pnl_realised, e.trades.iter().map(|t| t.0.to_string()).collect())).collect();
+            ensure!(rep, got == want, "engine-audit:position-exits", "with a strategy that places an order on every tick the audits of the fills carry the closed-position records {got:?}, the fills close {want:?}");
+        }
+
         rep.class(match case.magnitude {
             Magnitude::Tiny => "magnitude_tiny",
             Magnitude::Mid => "magnitude_mid",
@@ -464,7 +506,7 @@ impl Check for PositionLedger {
 }
 
 pub fn run(ctx: &mut Ctx) {
-    ctx.rule = "position_ledger: 1..30|60 fills on one instrument; one magnitude class per case (tiny ~1e-7..1e-2, mid 1e-4..1e5, huge 1..1e9 prices with matching quantity units); quantity selectors biased towards exact closes, halvings, flips (current, half, double, current+unit, pool, fresh); fee = value x rate (30% zero); one fill in seven carries an exchange time earlier than fills already applied. Applied to PositionManager::update_from_trade and to EngineState::update_from_account(Trade). non-trivial = >=3 fills AND at least one of {increase after a reduction, flip, exact close}; distinct by hash of the case.".into();
+    ctx.rule = "position_ledger: 1..30|60 fills on one instrument; one magnitude class per case (tiny ~1e-7..1e-2, mid 1e-4..1e5, huge 1..1e9 prices with matching quantity units); quantity selectors biased towards exact closes, halvings, flips (current, half, double, current+unit, pool, fresh); fee = value x rate (30% zero); one fill in seven carries an exchange time earlier than fills already applied. Applied to PositionManager::update_from_trade, to EngineState::update_from_account(Trade) and to Engine::process with trading enabled and a strategy that places an order on every tick (closed-position records read from the audit). non-trivial = >=3 fills AND at least one of {increase after a reduction, flip, exact close}; distinct by hash of the case.".into();
     ctx.assumptions = vec![
         "price > 0, quantity > 0, fee >= 0, unique trade ids, |price x quantity| <= 1e18 so Decimal arithmetic cannot overflow".into(),
         "decimal rounding tolerance 1e-22 x (1 + gross turnover) on the conservation laws (Decimal carries 28 significant digits; a wrong term is at least a fee or a price tick times a quantity)".into(),
